@@ -41,7 +41,9 @@ Definition range_ok (rr : rowrange) : bool :=
 
 Definition encode_range (rr : rowrange) : srange :=
   {| rs := match rr_start rr with BClosed k => k | BOpen k => k ++ [0%N] | BUnset => [] end;
-     re := match rr_end rr with BClosed k => k ++ [0%N] | BOpen k => k | BUnset => [] end |}.
+     re := match rr_end rr with
+           | BClosed [] => []          (* an empty closed end is "unset", as the validation reads it *)
+           | BClosed k => k ++ [0%N] | BOpen k => k | BUnset => [] end |}.
 Definition key_range (k : bytes) : srange := {| rs := k; re := k ++ [0%N] |}.
 
 Definition in_srange_b (r : srange) (k : bytes) : bool :=
